@@ -374,8 +374,25 @@ func run(c *mc.Ctx, u mc.Unit) {
 }
 
 func runSteps(c *mc.Ctx, sp spec, withPrev bool, w *world) {
-	// ---- the real pipeline: one epoch tick of the send loop
+	w.wire()
+	// ---- the real pipeline: one epoch tick of the send loop. The signer may answer the first request late (90 fake
+	// seconds). A node that does not wait that long sends nothing in this iteration; its next iteration, after the L2 data
+	// of the range changed, must then send a certificate that carries a signature over ITS OWN commitment.
+	slowSigner := sp.Perturb == 0 && (len(sp.Exits) > 0 || len(sp.Imps) > 0) && len(sp.Exits) <= 8 && len(sp.Imps) <= 8 &&
+		c.Bool("first-signing-request-is-answered-after-90s")
+	if slowSigner {
+		w.signer.slowOnce = 90 * time.Second //nolint:mnd
+		c.Witness("executions_with_a_slow_signer")
+	}
 	w.sender.VerifEpochTick(context.Background())
+	if slowSigner && len(w.submission.requests) == 0 {
+		c.Witness("iterations_given_up_on_the_slow_signer")
+		w.mutateRange()
+		time.Sleep(3 * time.Minute) // fake clock: the late answer of the signer has arrived meanwhile
+		w.flow.built, w.submission.requests = nil, nil
+		w.epochs.ch <- types.EpochEvent{Epoch: 2} //nolint:mnd
+		w.sender.VerifEpochTick(context.Background())
+	}
 	if len(w.flow.built) != 1 || len(w.submission.requests) != 1 {
 		c.Failf("pipeline/no-certificate-sent", "%s prev=%v: built %d certificates, submitted %d; last error: %q", sp, withPrev,
 			len(w.flow.built), len(w.submission.requests), w.sender.Info().AggsenderStatus.LastError)
